@@ -414,6 +414,16 @@ func rulePositionPairing(c *Ctx, r *Report) {
 }
 
 func rulePeekUnread(c *Ctx, r *Report) {
+	// Rewritten with fix F19. The first version demanded a *deferred* un-read because that is what the code
+	// did; but a built-in calls its continuation before it returns, so a deferred un-read runs after the
+	// rest of the clause body has already read from the stream. The necessary condition is the order:
+	//   (a) a peek has exactly one un-read of the matching unit on the stream it read from, not deferred;
+	//   (b) every path from the read to a call that invokes or hands on the continuation either passes
+	//       through the un-read or lies under a fact that the read failed (nothing was read);
+	//   (c) the un-read is reached only under the fact that the read succeeded (bufio un-reads the
+	//       previous byte after a failed ReadByte);
+	//   (d) read_term/3 un-reads the parser's look-ahead rune, not deferred, on every path from the parse
+	//       to a call that invokes or hands on the continuation.
 	const rule = "R-PEEK-UNREAD"
 	readM := map[string]*ssa.Function{}
 	for _, m := range []string{"ReadRune", "UnreadRune", "ReadByte", "UnreadByte"} {
@@ -429,6 +439,83 @@ func rulePeekUnread(c *Ctx, r *Report) {
 		arity  int
 		unread bool
 	}
+	// does instruction `in` invoke the continuation or hand it on?
+	usesK := func(fn *ssa.Function) func(ssa.Instruction) bool {
+		ks := paramsWhere(fn, c.isContType)
+		return func(in ssa.Instruction) bool {
+			ci, ok := in.(ssa.CallInstruction)
+			if !ok || len(ks) == 0 {
+				return false
+			}
+			cc := ci.Common()
+			vals := append([]ssa.Value{}, cc.Args...)
+			if !cc.IsInvoke() && cc.StaticCallee() == nil {
+				vals = append(vals, cc.Value)
+			}
+			for _, v := range vals {
+				if !c.isContType(v.Type()) {
+					continue
+				}
+				for _, l := range c.originSet(v) {
+					for _, k := range ks {
+						if l == ssa.Value(k) {
+							return true
+						}
+					}
+				}
+				// a closure that captures k counts as handing it on
+				if mc, ok := v.(*ssa.MakeClosure); ok {
+					for _, b := range mc.Bindings {
+						for _, k := range ks {
+							if cell := c.varCell(b); cell != nil {
+								for _, st := range c.storesTo(cell) {
+									if st.Val == ssa.Value(k) {
+										return true
+									}
+								}
+							}
+						}
+					}
+				}
+			}
+			return false
+		}
+	}
+	readSucceeded := func(at ssa.Instruction, errVal ssa.Value) bool {
+		for f := range c.factsAt(at.Block()) {
+			bo, ok := f.cond.(*ssa.BinOp)
+			if !ok || (bo.Op != token.EQL && bo.Op != token.NEQ) {
+				continue
+			}
+			var other ssa.Value
+			switch {
+			case bo.X == errVal:
+				other = bo.Y
+			case bo.Y == errVal:
+				other = bo.X
+			default:
+				continue
+			}
+			if k, isConst := other.(*ssa.Const); isConst && k.Value == nil && (bo.Op == token.EQL) == f.pol {
+				return true
+			}
+		}
+		return false
+	}
+	errOf := func(call *ssa.Call) ssa.Value {
+		var out ssa.Value
+		if refs := call.Referrers(); refs != nil {
+			for _, ref := range *refs {
+				if ex, ok := ref.(*ssa.Extract); ok && isErrorType(ex.Type()) {
+					out = ex
+				}
+			}
+		}
+		if isErrorType(call.Type()) {
+			out = call
+		}
+		return out
+	}
 	for _, sp := range []spec{{"peek_char", 2, true}, {"peek_byte", 2, true}, {"get_char", 2, false}, {"get_byte", 2, false}} {
 		fn := c.registeredFn(sp.name, sp.arity)
 		key := fmt.Sprintf("%s/%d", sp.name, sp.arity)
@@ -436,7 +523,6 @@ func rulePeekUnread(c *Ctx, r *Report) {
 			r.undecided(rule, key, "-", "locate the builtin", "not registered")
 			continue
 		}
-		// the read call in the builtin
 		var read *ssa.Call
 		var readName string
 		eachInstr(fn, func(in ssa.Instruction) {
@@ -452,117 +538,120 @@ func rulePeekUnread(c *Ctx, r *Report) {
 			r.bad(rule, key+"/read", c.Pos(fn.Pos()), "the builtin reads from the stream through Stream's methods", "no ReadRune/ReadByte call found")
 			continue
 		}
-		// un-read calls reachable in fn and its closures
-		var unreads []*ssa.Call
-		var deferred bool
-		for _, f := range withAnon(fn) {
-			eachInstr(f, func(in ssa.Instruction) {
-				call, ok := in.(*ssa.Call)
-				if !ok {
-					return
-				}
-				for _, un := range pairs {
-					if call.Call.StaticCallee() == readM[un] {
-						unreads = append(unreads, call)
-					}
-				}
-			})
-		}
+		isUn0 := func(f *ssa.Function) bool { return f == readM["UnreadRune"] || f == readM["UnreadByte"] }
+		unreads, unCallee, deferredDirect := c.directUnreadSites(fn, isUn0)
 		if !sp.unread {
-			if len(unreads) == 0 {
+			if len(unreads) == 0 && deferredDirect == nil {
 				r.ok(rule, key+"/consumes", c.at(read), "a get_* builtin consumes what it reads", "no un-read call in the builtin", false)
 			} else {
-				r.bad(rule, key+"/consumes", c.at(unreads[0]), "a get_* builtin consumes what it reads", "the builtin un-reads: the same character would be delivered twice")
+				r.bad(rule, key+"/consumes", c.at(read), "a get_* builtin consumes what it reads", "the builtin un-reads: the same character would be delivered twice")
 			}
 			continue
 		}
-		// peek: a deferred closure that calls the matching un-read on the same stream, installed right after the read
-		var deferIn *ssa.Defer
-		eachInstr(fn, func(in ssa.Instruction) {
-			d, ok := in.(*ssa.Defer)
-			if !ok {
-				return
-			}
-			mc, ok := d.Call.Value.(*ssa.MakeClosure)
-			if !ok {
-				return
-			}
-			eachInstr(mc.Fn.(*ssa.Function), func(in2 ssa.Instruction) {
-				call, ok := in2.(*ssa.Call)
-				if !ok || call.Call.StaticCallee() != readM[pairs[readName]] {
-					return
-				}
-				// same stream value
-				if c.sameStreamValue(call.Call.Args[0], read.Call.Args[0]) {
-					deferred, deferIn = true, d
+		descU := "a peek un-reads what it read, once, in the same unit, before the continuation can run"
+		// the un-read call itself (for the stream identity), wherever it sits
+		var unCall *ssa.Call
+		for _, f := range withAnon(fn) {
+			eachInstr(f, func(in ssa.Instruction) {
+				if x, ok := in.(*ssa.Call); ok && x.Call.StaticCallee() != nil && isUn0(x.Call.StaticCallee()) {
+					unCall = x
 				}
 			})
-		})
+		}
 		switch {
-		case !deferred:
-			r.bad(rule, key+"/unread", c.at(read), "a peek un-reads what it read, on every path", "no deferred "+pairs[readName]+" on the same stream: the peeked character is consumed")
-		case deferIn.Block() != read.Block() && !read.Block().Dominates(deferIn.Block()):
-			r.bad(rule, key+"/unread", c.at(deferIn), "a peek un-reads what it read, on every path", "the deferred un-read is not installed on every path after the read")
-		case len(unreads) != 1:
-			r.bad(rule, key+"/unread", c.at(read), "a peek un-reads what it read exactly once", fmt.Sprintf("%d un-read calls", len(unreads)))
-		default:
-			// every return reachable from the read passes the defer: the defer sits in the read's own block or in a block
-			// that every path from the read must cross
-			ok := deferIn.Block() == read.Block()
-			if !ok {
-				ok = true
-				for _, b := range fn.Blocks {
-					if _, isRet := b.Instrs[len(b.Instrs)-1].(*ssa.Return); isRet && read.Block().Dominates(b) && !deferIn.Block().Dominates(b) {
-						ok = false
-					}
-				}
-			}
-			if ok {
-				r.ok(rule, key+"/unread", c.at(deferIn), "a peek un-reads what it read, on every path", "deferred "+pairs[readName]+" on the same stream installed directly after the "+readName, true)
-			} else {
-				r.bad(rule, key+"/unread", c.at(deferIn), "a peek un-reads what it read, on every path", "a return after the read is not covered by the deferred un-read")
-			}
+		case deferredDirect != nil:
+			r.bad(rule, key+"/unread", c.at(deferredDirect), descU, "the un-read is deferred (or sits in a closure that runs later): a built-in calls its continuation before it returns, so the rest of the clause body reads from the stream first - peek_char(S,C), get_char(S,D) gives D the second character")
+			continue
+		case len(unreads) != 1 || unCall == nil:
+			r.bad(rule, key+"/unread", c.at(read), descU, fmt.Sprintf("%d un-read sites", len(unreads)))
+			continue
+		case unCallee[unreads[0]] != readM[pairs[readName]]:
+			r.bad(rule, key+"/unread", c.at(unreads[0]), descU, "the un-read is of the other unit than the read")
+			continue
+		case !c.sameStreamValue(unCall.Call.Args[0], read.Call.Args[0]):
+			r.bad(rule, key+"/unread", c.at(unreads[0]), descU, "the un-read is applied to another stream than the read")
+			continue
+		}
+		un := unreads[0]
+		errVal := errOf(read)
+		isUn := func(in ssa.Instruction) bool { return in == un }
+		uk := usesK(fn)
+		// path-sensitive in the outcome of the read: 0 unknown, 1 succeeded (err == nil), 2 failed
+		offending := errStateReach(read, errVal, uk, isUn)
+		if offending != nil {
+			r.bad(rule, key+"/unread", c.at(offending), descU, "the continuation is reachable from a successful read without passing through the un-read")
+		} else {
+			r.ok(rule, key+"/unread", c.at(un), descU, "every path from the read to a use of the continuation passes through the un-read or lies under a fact that the read failed", true)
+		}
+		descS := "the un-read runs only when the read succeeded"
+		if errVal != nil && readSucceeded(un, errVal) {
+			r.ok(rule, key+"/unread-on-success", c.at(un), descS, "reached under err == nil of the read", true)
+		} else if readName == "ReadRune" {
+			r.ok(rule, key+"/unread-on-success", c.at(un), descS, "unconditional, harmless for runes: the buffered reader refuses UnreadRune unless the last operation was a successful ReadRune", false)
+		} else {
+			r.bad(rule, key+"/unread-on-success", c.at(un), descS, "the un-read is also reached when the read failed: the buffered reader then un-reads the byte read before (the last byte of a binary stream comes back after a peek at its end)")
 		}
 	}
-	// read_term/3: exactly one deferred UnreadRune on the parsed stream, installed after the parser is built
+	// read_term/3
 	if rt := c.registeredFn("read_term", 3); rt != nil {
 		np := c.fn("NewParser")
-		var npCall *ssa.Call
+		termM := c.method("Parser", "Term")
+		var npCall, parse *ssa.Call
 		eachInstr(rt, func(in ssa.Instruction) {
-			if call, ok := in.(*ssa.Call); ok && call.Call.StaticCallee() == np && np != nil {
-				npCall = call
+			if call, ok := in.(*ssa.Call); ok {
+				if np != nil && call.Call.StaticCallee() == np {
+					npCall = call
+				}
+				if termM != nil && call.Call.StaticCallee() == termM {
+					parse = call
+				}
 			}
 		})
-		nun := 0
-		okStream := false
-		for _, f := range withAnon(rt) {
-			eachInstr(f, func(in ssa.Instruction) {
-				call, ok := in.(*ssa.Call)
-				if !ok || call.Call.StaticCallee() != readM["UnreadRune"] {
-					return
-				}
-				nun++
-				if npCall != nil && len(npCall.Call.Args) >= 2 {
-					// the stream handed to the parser (converted to io.RuneReader) is the one un-read
-					for _, l := range c.originSet(npCall.Call.Args[1]) {
-						for _, l2 := range c.originSet(call.Call.Args[0]) {
-							if l == l2 {
-								okStream = true
-							}
+		uns, _, notDirect := c.directUnreadSites(rt, func(f *ssa.Function) bool { return f == readM["UnreadRune"] })
+		key := "read_term/3/unread"
+		desc := "read_term/3 returns the parser's one look-ahead rune to the stream before the continuation can run"
+		switch {
+		case npCall == nil || parse == nil:
+			r.undecided(rule, key, c.Pos(rt.Pos()), desc, "NewParser / Parser.Term call not found")
+		case notDirect != nil:
+			r.bad(rule, key, c.at(notDirect), desc, "the un-read is deferred: the continuation reads from the stream first, skipping the character after the end token and then delivering the next one twice")
+		case len(uns) != 1:
+			r.bad(rule, key, c.at(parse), desc, fmt.Sprintf("%d UnreadRune calls", len(uns)))
+		default:
+			okStream := false
+			var unCall *ssa.Call
+			for _, f := range withAnon(rt) {
+				eachInstr(f, func(in ssa.Instruction) {
+					if x, ok := in.(*ssa.Call); ok && x.Call.StaticCallee() == readM["UnreadRune"] {
+						unCall = x
+					}
+				})
+			}
+			if unCall != nil && len(npCall.Call.Args) >= 2 {
+				for _, l := range c.originSet(npCall.Call.Args[1]) {
+					for _, l2 := range c.originSet(unCall.Call.Args[0]) {
+						if l == l2 {
+							okStream = true
 						}
 					}
 				}
-			})
+			}
+			uk := usesK(rt)
+			hit := instrReachAvoid(parse, func(in ssa.Instruction) bool {
+				_, isRet := in.(*ssa.Return)
+				return isRet || uk(in)
+			}, func(in ssa.Instruction) bool { return in == uns[0] })
+			switch {
+			case !okStream:
+				r.bad(rule, key, c.at(uns[0]), desc, "the stream un-read is not the stream handed to the parser")
+			case hit != nil:
+				r.bad(rule, key, c.at(hit), desc, "a return or a use of the continuation is reachable from the parse without passing through the un-read")
+			default:
+				r.ok(rule, key, c.at(uns[0]), desc, "one UnreadRune on the parsed stream, on every path from the parse to a return or a use of the continuation", true)
+			}
 		}
-		key := "read_term/3/unread"
-		switch {
-		case npCall == nil:
-			r.undecided(rule, key, c.Pos(rt.Pos()), "read_term/3 returns its one look-ahead rune to the stream", "NewParser call not found")
-		case nun == 1 && okStream:
-			r.ok(rule, key, c.at(npCall), "read_term/3 returns its one look-ahead rune to the stream", "exactly one UnreadRune on the stream the parser was built on", true)
-		default:
-			r.bad(rule, key, c.at(npCall), "read_term/3 returns its one look-ahead rune to the stream", fmt.Sprintf("%d UnreadRune calls (same stream: %v): the character after the term's end token is lost or repeated", nun, okStream))
-		}
+	} else {
+		r.undecided(rule, "read_term/3", "-", "locate read_term/3", "not registered")
 	}
 	r.analysed(rule, "peek_char/2 peek_byte/2 get_char/2 get_byte/2 read_term/3")
 }
@@ -740,4 +829,165 @@ func ruleStreamTypeGuard(c *Ctx, r *Report) {
 		})
 	}
 	r.analysed(rule, fmt.Sprintf("%d unit-specific operations on the underlying reader inside Stream", n))
+}
+
+
+// errStateReach searches the paths from `start` that avoid `avoid`, tracking what the branches taken say
+// about errVal (nil / non-nil), and returns the first `target` instruction reached on a path on which
+// errVal is not known to be non-nil. Branches contradicting what the path already assumed are infeasible.
+func errStateReach(start ssa.Instruction, errVal ssa.Value, target, avoid func(ssa.Instruction) bool) ssa.Instruction {
+	type st struct {
+		b     *ssa.BasicBlock
+		state int
+	}
+	seen := map[st]bool{}
+	var found ssa.Instruction
+	var scan func(b *ssa.BasicBlock, from int, state int)
+	scan = func(b *ssa.BasicBlock, from int, state int) {
+		for i := from; i < len(b.Instrs) && found == nil; i++ {
+			in := b.Instrs[i]
+			if avoid(in) {
+				return
+			}
+			if target(in) && state != 2 {
+				found = in
+				return
+			}
+		}
+		if found != nil {
+			return
+		}
+		var bo *ssa.BinOp
+		if iff, ok := b.Instrs[len(b.Instrs)-1].(*ssa.If); ok {
+			bo, _ = iff.Cond.(*ssa.BinOp)
+		}
+		for si, s := range b.Succs {
+			ns := state
+			if bo != nil && errVal != nil && (bo.Op == token.EQL || bo.Op == token.NEQ) {
+				var other ssa.Value
+				switch {
+				case bo.X == errVal:
+					other = bo.Y
+				case bo.Y == errVal:
+					other = bo.X
+				}
+				if other != nil {
+					k, isConst := other.(*ssa.Const)
+					isNil := isConst && k.Value == nil
+					eq := (bo.Op == token.EQL) == (si == 0)
+					switch {
+					case isNil && eq:
+						if state == 2 {
+							continue
+						}
+						ns = 1
+					case isNil && !eq:
+						if state == 1 {
+							continue
+						}
+						ns = 2
+					case !isNil && eq:
+						if state == 1 {
+							continue
+						}
+						ns = 2
+					}
+				}
+			}
+			key := st{s, ns}
+			if seen[key] {
+				continue
+			}
+			seen[key] = true
+			scan(s, 0, ns)
+		}
+	}
+	scan(start.Block(), instrIndex(start)+1, 0)
+	return found
+}
+
+
+// directUnreadSites returns the instructions of fn at which one of the un-read methods runs: direct calls,
+// and calls of a local closure (called in place, never deferred, stored elsewhere or passed on) whose body
+// makes the un-read. `bad` is an un-read that runs at some other time: deferred, or inside a closure that
+// is deferred, passed on or called from a nested function.
+func (c *Ctx) directUnreadSites(fn *ssa.Function, isUnread func(*ssa.Function) bool) (sites []ssa.Instruction, callee map[ssa.Instruction]*ssa.Function, bad ssa.Instruction) {
+	callee = map[ssa.Instruction]*ssa.Function{}
+	eachInstr(fn, func(in ssa.Instruction) {
+		switch x := in.(type) {
+		case *ssa.Call:
+			if f := x.Call.StaticCallee(); f != nil && isUnread(f) {
+				sites = append(sites, in)
+				callee[in] = f
+			}
+		case *ssa.Defer:
+			if f := x.Call.StaticCallee(); f != nil && isUnread(f) {
+				bad = in
+			}
+		case *ssa.Go:
+			if f := x.Call.StaticCallee(); f != nil && isUnread(f) {
+				bad = in
+			}
+		}
+	})
+	for _, g := range withAnon(fn) {
+		if g == fn {
+			continue
+		}
+		var inner *ssa.Call
+		eachInstr(g, func(in ssa.Instruction) {
+			if x, ok := in.(*ssa.Call); ok {
+				if f := x.Call.StaticCallee(); f != nil && isUnread(f) {
+					inner = x
+				}
+			}
+		})
+		if inner == nil {
+			continue
+		}
+		// how is g used in fn?
+		okUse := g.Parent() == fn
+		var callSites []ssa.Instruction
+		if okUse {
+			eachInstr(fn, func(in ssa.Instruction) {
+				ci, isCall := in.(ssa.CallInstruction)
+				refersG := func(v ssa.Value) bool {
+					for _, l := range c.originSet(v) {
+						if mc, ok := l.(*ssa.MakeClosure); ok && mc.Fn == ssa.Value(g) {
+							return true
+						}
+						if l == ssa.Value(g) {
+							return true
+						}
+					}
+					return false
+				}
+				if !isCall {
+					return
+				}
+				cc := ci.Common()
+				for _, a := range cc.Args {
+					if refersG(a) {
+						okUse = false
+					}
+				}
+				if !cc.IsInvoke() && cc.StaticCallee() == nil && refersG(cc.Value) || cc.StaticCallee() == g {
+					if _, plain := in.(*ssa.Call); plain {
+						callSites = append(callSites, in)
+					} else {
+						okUse = false // defer / go
+					}
+				}
+			})
+		}
+		if okUse && len(callSites) > 0 {
+			for _, cs := range callSites {
+				sites = append(sites, cs)
+				callee[cs] = inner.Call.StaticCallee()
+			}
+		} else {
+			bad = inner
+		}
+	}
+	return
 }
